@@ -25,6 +25,11 @@ class Cond:
     concrete: bool = False  # contract-validation item: fn() is called once, concretely (no solver); labelled as such in evidence
 
 
+# the tree under verification: /repo, unless VERIF_REPO points to a scratch worktree (used only by bin/seed_check.sh to
+# try a seeded change without touching /repo; registered checks never set it)
+REPO = os.environ.get("VERIF_REPO", "/repo")
+REPO_SRC = REPO + "/src"
+
 _GEN_COUNT = 0
 
 
